@@ -7,6 +7,8 @@ PLAN = {
     "C13": ["clifiles"],
     "C14": ["clifiles"],
     "C15": ["configsearch"],
+    "C16": ["selection"],
+    "C17": ["stdin"],
     "C19": ["exitcode", "threads", "clifiles"],
 }
 TRACE_SPEC = {}
@@ -159,6 +161,99 @@ def src_configsearch(tier, seed):
     return scenarios, st
 
 
+def pat_text(p):
+    t = {"name": p["v"], "dir": p["v"] + "/", "ext": "*." + p["v"], "anch": "/" + p["v"]}[p["k"]]
+    return ("!" if p["neg"] else "") + t
+
+
+def src_selection(tier, seed):
+    raw, st = tlc_generate("MC_Selection", "MC_Selection_%s.cfg" % tier, "g_selection_" + tier)
+    raw.sort(key=lambda c: json.dumps(c, sort_keys=True))
+    scenarios = []
+    for n, c in enumerate(raw):
+        sc = c["sc"]
+        tree = []
+        for k, pth in enumerate(sorted(c["universe"])):
+            tree.append({"path": pth, "text": "local   u%d = %d\n" % (k, k), "tag": "cand", "class": "raw"})
+        if sc["ig_root"]:
+            tree.append({"path": ".styluaignore", "text": "".join(pat_text(p) + "\n" for p in sc["ig_root"]), "class": "raw"})
+        if sc["ig_src"]:
+            tree.append({"path": "src/.styluaignore", "text": "".join(pat_text(p) + "\n" for p in sc["ig_src"]), "class": "raw"})
+        argv = []
+        if sc["respect"]:
+            argv.append("--respect-ignores")
+        if sc["allow_hidden"]:
+            argv.append("--allow-hidden")
+        argv += [a["path"] for a in sc["args"]]
+        pk = "+".join(sorted(set(("!" if p["neg"] else "") + p["k"] for p in sc["ig_root"])) ) + "/" + "+".join(sorted(set(("!" if p["neg"] else "") + p["k"] for p in sc["ig_src"])))
+        scenarios.append({"id": "sl%d" % n, "tree": tree, "argv": argv,
+                          "meta": {"kind": "select", "sc": sc, "selected": sorted(c["selected"]), "maybe": sorted(c["maybe"]),
+                                   "sig": "args=%s;flags=%s" % (sc["argset"], "+".join(k for k in ("respect", "allow_hidden") if sc[k]) or "none"),
+                                   "sig_ignore": pk}})
+    return scenarios, st
+
+
+LARGE_LINES = [2500]
+
+
+def stdin_input(cls):
+    if cls == "unformatted":
+        return "local   x   =   1\nlocal t = {  1,2 }\n"
+    if cls == "formatted":
+        return "local x = 1\n"
+    if cls == "invalid":
+        return "local x = (\n"
+    if cls == "empty":
+        return ""
+    if cls == "crlf":
+        return "local   x = 1\r\ndo\r\n  f()\r\nend\r\n"
+    if cls == "nonl":
+        return "local   x = 1"
+    if cls == "large":
+        return "".join("local   v%d = { %d,%d }\n" % (i, i, i + 1) for i in range(LARGE_LINES[0]))
+    raise ValueError(cls)
+
+
+def src_stdin(tier, seed):
+    LARGE_LINES[0] = 2500 if tier == "quick" else 120000     # thorough: multi-megabyte
+    raw, st = tlc_generate("MC_Stdin", "MC_Stdin_%s.cfg" % tier, "g_stdin_" + tier)
+    raw.sort(key=lambda c: json.dumps(c, sort_keys=True))
+    reqs, scenarios = [], []
+    for cls in ("unformatted", "formatted", "empty", "crlf", "nonl", "large"):
+        reqs.append(("fmt:" + cls, stdin_input(cls).encode(), {}))
+        reqs.append(("fmt_cfgdir:" + cls, stdin_input(cls).encode(), {"indent_type": "Spaces", "indent_width": 3}))
+    lib = _expected_formats(reqs)
+    for n, r in enumerate(raw):
+        c = r["c"]
+        text = stdin_input(c["input"])
+        tree = [{"path": "keep/other.lua", "text": "local   untouched = 1\n", "class": "raw"},
+                {"path": ".styluaignore", "text": "build/\nignored.lua\n", "class": "raw"},
+                {"path": "conf/stylua.toml", "text": 'indent_type = "Spaces"\nindent_width = 3\n', "class": "raw"},
+                {"path": "build/sub/deep", "kind": "dir"}, {"path": "src", "kind": "dir"}]
+        argv = []
+        pc = c["pathcase"]
+        path = {"plain": "src/foo.lua", "ign1": "build/foo.lua", "ign2": "build/sub/foo.lua", "ign3": "build/sub/deep/foo.lua",
+                "ignfile": "src/ignored.lua", "ign_norespect": "build/foo.lua", "cfgdir": "conf/foo.lua"}.get(pc)
+        if pc in ("ign1", "ign2", "ign3", "ignfile", "plain"):
+            argv.append("--respect-ignores")
+        if path:
+            argv += ["--stdin-filepath", path]
+        if c["mode"] != "write":
+            argv.append("--check")
+            if c["mode"] != "check":
+                argv += ["--output-format", c["mode"].split("_")[1]]
+        if c["extra"] == "verify":
+            argv.append("--verify")
+        elif c["extra"] == "threads1":
+            argv += ["--num-threads", "1"]
+        argv.append("-")
+        exp = {"input": text, "fmt": lib.get("fmt:" + c["input"]), "fmt_cfgdir": lib.get("fmt_cfgdir:" + c["input"])}
+        scenarios.append({"id": "si%d" % n, "tree": tree, "argv": argv, "stdin": {"text": text}, "stdout_expect": exp, "timeout": 60,
+                          "meta": {"kind": "stdin", "c": c, "expect": r["expect"],
+                                   "sig": "input=%s;mode=%s;path=%s;extra=%s" % (c["input"], c["mode"], pc, c["extra"])}})
+    return scenarios, st
+
+
 EXIT_SCENARIOS = [
     # (name, [(file, class)], argv order): the missing path comes last so that the walker dispatches every file first
     ("diff+missing", [("a.lua", "unformatted"), ("m.lua", "missing")]),
@@ -281,6 +376,8 @@ def src_threads(tier, seed):
 
 
 SOURCES = {
+    "stdin": src_stdin,
+    "selection": src_selection,
     "configsearch": src_configsearch,
     "clifiles": src_clifiles,
     "exitcode": src_exitcode,
